@@ -69,6 +69,24 @@ func main() {
 	case "baseline":
 		o.baseline = true
 		os.Exit(runCheck(&o))
+	case "loops":
+		// list the loops of a function (ordinal, position) to help write loop contracts
+		p, err := loadProg(o.repo, []string{"./..."})
+		if err != nil {
+			fmt.Fprintln(os.Stderr, err)
+			os.Exit(2)
+		}
+		for _, a := range fs.Args() {
+			for name, fn := range p.Funcs {
+				if strings.Contains(name, a) && fn.Blocks != nil {
+					fmt.Println(name)
+					for i, h := range loopHeaders(fn) {
+						fmt.Printf("  loop %d at %s\n", i, p.pos(blockPos(h)))
+					}
+				}
+			}
+		}
+		os.Exit(0)
 	case "replay":
 		os.Exit(runReplay(&o, fs.Args()))
 	default:
@@ -135,6 +153,7 @@ func runCheck(o *options) int {
 		fmt.Fprintln(os.Stderr, "BROKEN: contracts:", err)
 		return 2
 	}
+	p.effects.addGhostEffects(db)
 	tLoad := time.Since(t0).Seconds()
 	var onlyRE *regexp.Regexp
 	if o.only != "" {
